@@ -179,7 +179,7 @@ func scenCrash(seed uint64, thorough bool) (out scenOut) {
 		out.fail = "base write: " + err.Error()
 		return
 	}
-	leveldb.VerifWaitIdle(w.db, 10*time.Second)
+	leveldb.VerifWaitIdleDB(w.db, 10*time.Second)
 	var recs []dbh.Rec
 	var iOpen, iC, iR int
 	if viaBatch {
@@ -217,7 +217,7 @@ func scenCrash(seed uint64, thorough bool) (out scenOut) {
 	if sameMap(full, w.base) {
 		out.count("crash_case_without_visible_change")
 	}
-	leveldb.VerifWaitIdle(w.db, 10*time.Second)
+	leveldb.VerifWaitIdleDB(w.db, 10*time.Second)
 	iEnd := w.st.OpCount()
 	if _, fail := call("DB.Close", func() error { return w.db.Close() }); fail != "" {
 		out.fail = fail
@@ -284,7 +284,7 @@ func scenCrash(seed uint64, thorough bool) (out scenOut) {
 					Rand: func() uint64 { x ^= x << 13; x ^= x >> 7; x ^= x << 17; return x }})
 				what := fmt.Sprintf("crash image after storage op #%d (Commit called at #%d, returned at #%d; tail policy %s, unsynced files vanish=%v)", i, iC, iR, pol, vanish)
 				var db2 *leveldb.DB
-				pre := tableNums(img)
+				pre := img.OpCount()
 				err, fail := call("Open of a "+what, func() (e error) { db2, e = leveldb.Open(img, w.opts); return })
 				if fail == "" && err != nil {
 					fail = fmt.Sprintf("%s: Open error %v", what, err)
@@ -326,8 +326,23 @@ func scenCrash(seed uint64, thorough bool) (out scenOut) {
 						}
 					}
 					if fail == "" {
-						if extra := residue(db2, img, newSince(img, pre)); len(extra) > 0 {
+						if extra := residue(db2, img, createdSince(img, pre)); len(extra) > 0 {
 							fail = fmt.Sprintf("%s: after recovery table files %v are not in the live version", what, extra)
+							if os.Getenv("C11_DEBUG") != "" {
+								fmt.Println(fail)
+								fmt.Println("  now", tableFiles(img), "version", leveldb.VerifDumpVersion(db2))
+								fmt.Println("  iOpen", iOpen, "cfg", w.cfg.String(), "viaBatch", viaBatch)
+								for _, o := range w.st.Ops()[:i] {
+									if o.Kind != vstor.OpRead && o.Kind != vstor.OpWrite {
+										fmt.Println("    orig ", o)
+									}
+								}
+								for _, o := range img.Ops() {
+									if o.Kind != vstor.OpRead && o.Kind != vstor.OpWrite {
+										fmt.Println("    ", o)
+									}
+								}
+							}
 						}
 					}
 					if _, f2 := call("DB.Close", func() error { return db2.Close() }); f2 != "" && fail == "" {
@@ -397,10 +412,13 @@ func slowCall(what string, f func() error) (err error, fail string) {
 func scenFault(seed uint64, thorough bool) (out scenOut) {
 	out.stats = map[string]int{}
 	r := vlib.NewRNG(seed)
-	kind := r.Intn(nFaultKinds)
-	viaBatch := r.Chance(1, 3)
-	then := r.Intn(3) // 0 retry after heal, 1 discard, 2 close
-	w := newWorld(r, os.Getenv("C11_DEBUG") != "", func(c *dbh.Cfg) {
+	// the low bits of the seed enumerate the combinations (the driver hands out consecutive values there),
+	// everything else is drawn from the seed
+	combo := int(seed % uint64(nFaultKinds*2*3))
+	kind := combo % nFaultKinds
+	viaBatch := (combo/nFaultKinds)%2 == 1
+	then := combo / (nFaultKinds * 2) // 0 retry after heal, 1 discard, 2 close
+	w := newWorld(r, true, func(c *dbh.Cfg) {
 		c.NoSync = false
 		if viaBatch {
 			c.NoLargeBatchTxn = false
@@ -408,6 +426,8 @@ func scenFault(seed uint64, thorough bool) (out scenOut) {
 		c.MaxManifest = []int64{0, 0, 1, 512}[r.Intn(4)]
 	})
 	rotating := w.cfg.MaxManifest == 1 // every commit writes a fresh manifest: no writer state survives a failure
+	// with the default back-off a background job that keeps failing retries every 1..8 s instead of spinning
+	w.opts.DisableCompactionBackoff = false
 	name := faultNames[kind]
 	out.count("fault_" + name)
 	if os.Getenv("C11_DEBUG") != "" {
@@ -432,28 +452,53 @@ func scenFault(seed uint64, thorough bool) (out scenOut) {
 	}
 	abandoned := false
 	defer func() {
-		if !abandoned && w.db != nil {
-			within(hangLimit, func() { w.db.Close() })
+		// Also after a hang: Close first signals every background job to stop (a job that retries forever
+		// would otherwise keep the process-wide busy counter of the idle detector up), then may itself block on
+		// the leaked lock; it is not waited for long.
+		if w.db != nil {
+			d := hangLimit
+			if abandoned {
+				d = 2 * time.Second
+			}
+			db := w.db
+			within(d, func() { db.Close() })
 		}
 	}()
 	if err := w.baseWrites(r.Range(0, 10), false); err != nil {
 		out.fail = "base write: " + err.Error()
 		return
 	}
-	leveldb.VerifWaitIdle(w.db, 10*time.Second)
+	leveldb.VerifWaitIdleDB(w.db, 10*time.Second)
 	want := w.base.Clone()
 	var recs []dbh.Rec
 	var tr *leveldb.Transaction
 	var cerr error
 	var ft *vstor.Fault
 	uncommitted := true // the failed commit was never completed by a successful retry
+	stuckK2 := false    // a background job cannot finish after the failed manifest Write (C11-K2)
+	// Recorded defect C11-K2 (liveness, C09 family): a failed manifest Write leaves the manifest's journal
+	// writer in a permanent error state; every later commit fails, and a background flush/compaction that hits
+	// it retries forever while holding the compaction commit lock, so a retried Transaction.Commit (or anything
+	// that needs a flush) can block forever. Hangs in that situation are reported as that known finding.
+	maybeSticky := (kind == fMWrite || kind == fMWriteTorn) && !rotating
 	bad := func(f string, a ...interface{}) {
 		out.fail = fmt.Sprintf("[fault %s, via %s, manifest rotation=%v] ", name, map[bool]string{true: "oversized batch", false: "transaction"}[viaBatch], rotating) + fmt.Sprintf(f, a...)
-		abandoned = abandoned || bytes.Contains([]byte(out.fail), []byte("HANG"))
+		if bytes.Contains([]byte(out.fail), []byte("HANG")) {
+			abandoned = true
+			if maybeSticky && ft != nil && ft.Hits > 0 {
+				out.known = "C11-K2"
+			}
+		}
 	}
 	if viaBatch {
 		out.count("fault_via_oversized_batch")
 		recs = w.g.oversized()
+		// nothing may be pending when the fault starts: flush the write buffer (what OpenTransaction would do
+		// inside Write) and let the compactions it triggers finish
+		if tr0, err := w.db.OpenTransaction(); err == nil {
+			tr0.Discard()
+		}
+		leveldb.VerifWaitIdleDB(w.db, 10*time.Second)
 		ft = mkFault(kind)
 		w.st.AddFault(ft)
 		var fail string
@@ -475,6 +520,7 @@ func scenFault(seed uint64, thorough bool) (out scenOut) {
 			out.fail = "transaction write: " + err.Error()
 			return
 		}
+		leveldb.VerifWaitIdleDB(w.db, 10*time.Second) // the flush done by OpenTransaction may have triggered a compaction
 		ft = mkFault(kind)
 		w.st.AddFault(ft)
 		var fail string
@@ -506,6 +552,25 @@ func scenFault(seed uint64, thorough bool) (out scenOut) {
 	} else {
 		out.count("commit_failed")
 		out.nontrivial = true
+		// the failed commit must not keep the compaction commit lock: once the DB's background work has settled
+		// nobody may hold it. (If the background work cannot settle after a failed manifest Write, that is the
+		// recorded defect C11-K2; the retry below is then skipped instead of being left to hang.)
+		settled := false
+		within(3*time.Second, func() { settled = leveldb.VerifWaitIdleDB(w.db, 2500*time.Millisecond) })
+		if settled && leveldb.VerifCompCommitLocked(w.db) {
+			time.Sleep(20 * time.Millisecond)
+			if leveldb.VerifCompCommitLocked(w.db) && leveldb.VerifWaitIdleDB(w.db, time.Second) {
+				bad("the commit returned %v but left the compaction commit lock taken (no background job is running)", cerr)
+				abandoned = true
+				return
+			}
+		}
+		if !settled {
+			out.count("background_job_stuck_after_failed_commit")
+			if maybeSticky && hits > 0 {
+				stuckK2 = true
+			}
+		}
 		// nothing visible outside
 		if d := checkView(w.db, keys, w.base, "outside view after the failed commit"); d != "" {
 			bad("%s", d)
@@ -526,6 +591,10 @@ func scenFault(seed uint64, thorough bool) (out scenOut) {
 				}
 			}
 			w.st.Heal()
+			if stuckK2 && then == 0 {
+				out.count("retry_skipped_background_job_stuck")
+				then = 1
+			}
 			switch then {
 			case 0:
 				out.count("then_retry_commit")
@@ -555,7 +624,7 @@ func scenFault(seed uint64, thorough bool) (out scenOut) {
 				}
 			case 1:
 				out.count("then_discard")
-				nums := leveldb.VerifTxnTableNums(tr)
+				nums := filesOf(w.st, leveldb.VerifTxnTableNums(tr))
 				if _, fail := call("Discard after a failed commit", func() error { tr.Discard(); return nil }); fail != "" {
 					bad("%s", fail)
 					return
@@ -626,7 +695,7 @@ func scenFault(seed uint64, thorough bool) (out scenOut) {
 		out.known = "C11-K1"
 	}
 	var db2 *leveldb.DB
-	pre := tableNums(w.st)
+	pre := w.st.OpCount()
 	if err, fail := call("reopen after the failed commit", func() (e error) { db2, e = leveldb.Open(w.stor, w.opts); return }); fail != "" || err != nil {
 		bad("reopen: %s%v", fail, err)
 		return
@@ -636,7 +705,7 @@ func scenFault(seed uint64, thorough bool) (out scenOut) {
 		bad("%s", d)
 		return
 	}
-	if extra := residue(db2, w.st, newSince(w.st, pre)); len(extra) > 0 {
+	if extra := residue(db2, w.st, createdSince(w.st, pre)); len(extra) > 0 {
 		bad("after reopen table files %v are not in the live version", extra)
 		return
 	}
@@ -662,8 +731,16 @@ func scenOpenFail(seed uint64, thorough bool) (out scenOut) {
 	}
 	abandoned := false
 	defer func() {
-		if !abandoned && w.db != nil {
-			within(hangLimit, func() { w.db.Close() })
+		// Also after a hang: Close first signals every background job to stop (a job that retries forever
+		// would otherwise keep the process-wide busy counter of the idle detector up), then may itself block on
+		// the leaked lock; it is not waited for long.
+		if w.db != nil {
+			d := hangLimit
+			if abandoned {
+				d = 2 * time.Second
+			}
+			db := w.db
+			within(d, func() { db.Close() })
 		}
 	}()
 	if err := w.baseWrites(r.Range(0, 6), false); err != nil {
